@@ -291,7 +291,7 @@ def drive(a, prop, tier, cdir, plain, outdir, need_race, log, t0):
             print("VIOLATION property=%s replay=%s" % (prop, a.replay))
             for v in o.get("violations", []):
                 if v["sig"] == o["sig"]:
-                    print("  " + v["msg"][:3000])
+                    print("  " + v["msg"][:9000])
             return 1
         print("replay of %s: violation %s did not reproduce on this tree" % (a.replay, o.get("sig")))
         return 0
